@@ -759,6 +759,68 @@ fn check_sem_case(ctx: &mut Ctx, w: &World, g: &Gen, q: &Q, text: &str) {
     }
 }
 
+/// offsets `(n, Term(` of the phrase terms in the Debug text of a compiled query
+fn debug_offsets(dbg: &str) -> Vec<u64> {
+    let mut out = vec![];
+    let b = dbg.as_bytes();
+    let mut i = 0;
+    while i < b.len() {
+        if b[i] == b'(' {
+            let mut j = i + 1;
+            while j < b.len() && b[j].is_ascii_digit() {
+                j += 1;
+            }
+            if j > i + 1 && dbg[j..].starts_with(", Term(") {
+                out.push(dbg[i + 1..j].parse().unwrap_or(u64::MAX));
+            }
+        }
+        i += 1;
+    }
+    out
+}
+
+/// the compile step of a quoted literal: the offsets of the phrase terms of the real compiled
+/// query = the analyzer's token positions (oracle) = Lean `Phrase.compile (analyse …)` (model)
+fn check_phrase_offsets(ctx: &mut Ctx, w: &World) {
+    let mut rng = ctx.rng.fork();
+    let n = 2 + rng.usize_below(5);
+    let words: Vec<String> = (0..n).map(|_| if rng.chance(2, 5) { rng.pick(STOP_WORDS).to_string() } else { rng.pick(WORDS).to_string() }).collect();
+    let kept = kept_positions(F_STOP, &words);
+    if kept.len() < 2 {
+        return;
+    }
+    let suffix = match rng.below(4) {
+        0 => "~2",
+        1 if !STOP_WORDS.contains(&words[n - 1].as_str()) => "*",
+        _ => "",
+    };
+    let text = format!("stop:\"{}\"{suffix}", words.join(" "));
+    let case = json!({"kind": "string", "text": text, "origin": "phrase-offsets"});
+    ctx.report.case(&format!("phrase-offsets|{text}"), kept.len() < n);
+    ctx.report.count("phrase-offsets:cases");
+    let dbg = match catch_unwind(AssertUnwindSafe(|| w.parser_or.parse_query(&text).map(|q| format!("{q:?}")))) {
+        Ok(Ok(d)) => d,
+        Ok(Err(e)) => {
+            ctx.report.violation("oracle", "C16:wellformed-rejected", format!("{text:?} is rejected: {e}"), case);
+            return;
+        }
+        Err(e) => {
+            ctx.report.violation("oracle", panic_key(&panic_text(e)), format!("QueryParser::parse_query panics on {text:?}"), case);
+            return;
+        }
+    };
+    let real = debug_offsets(&dbg);
+    let expected: Vec<u64> = kept.iter().map(|(p, _)| *p as u64).collect();
+    let flags: Vec<u64> = words.iter().map(|x| if STOP_WORDS.contains(&x.as_str()) { 0 } else { 1 }).collect();
+    let model = ctx.model.ask(&format!("C16 phrase {}", crate::model::nat_list(&flags)));
+    if real != expected {
+        ctx.report.violation("oracle", "C16:phrase-offsets-not-token-positions", format!("{text:?}: the compiled phrase terms have offsets {real:?}, the analyzer's token positions are {expected:?}"), case.clone());
+    }
+    if model != crate::model::nat_list(&real) {
+        ctx.report.violation("model", "C16:phrase-offsets-model-mismatch", format!("{text:?}: real offsets {real:?} ≠ Lean Phrase.compile {model}"), case);
+    }
+}
+
 /// an unmarked `NOT x` clause of a marker list somewhere below a boost: `rewrite_ast` does not
 /// descend into `Boost`, so the clause is not normalised to `-x`
 fn neg_under_boost(q: &Q, boosted: bool) -> bool {
@@ -887,6 +949,7 @@ pub fn run(ctx: &mut Ctx) {
         "lenient tree and early-operator error count = Lean lenientFold on inputs the strict parser rejects for a leading operator".into(),
         "doc-id set of QueryParser::parse_query = Lean model of rewrite + compute_logical_ast + simplify + BooleanQuery semantics".into(),
         "doc-id set of QueryParser::parse_query_lenient = Lean lenient pipeline".into(),
+        "offsets of the phrase terms of the compiled query = Lean Phrase.compile (analyse keep words)".into(),
         "Lean semQ = harness brute-force meaning of the abstract query".into(),
     ];
     if let Some(case) = ctx.replay.clone() {
@@ -980,6 +1043,13 @@ pub fn run(ctx: &mut Ctx) {
             let text = g.print(&mut ctx.rng.fork(), &q, true);
             ctx.report.count("sem:stop-word-phrase-corpus");
             check_sem_case(ctx, &w3, &g, &q, &text);
+        }
+    }
+
+    // compile step of quoted literals on the token-dropping field
+    if on("c") {
+        for _ in 0..ctx.budget(300, 5000) {
+            check_phrase_offsets(ctx, &w);
         }
     }
 
